@@ -66,6 +66,11 @@ class Table:
                                {"len": n, "dt": dt, "frame": v, "a": repr(old), "b": repr(canon)})
 
 
+_PRIME = [0]
+PRIMERS = [(16, 0xC100 + n) for n in (1, 2, 3, 4, 5, 6, 7, 8, 0, 255)] + [(16, 0xA300), (16, 0xC355), (16, 0xA500),
+                                                                          (24, 0xC13001), (24, 0xC10000), (24, 0xC50102)]
+
+
 def roundtrip(res, table, cls, build, canon, fields, dt=None, dmap=None, ctx=None):
     """build() -> object; fields(obj) -> comparable tuple (by kind/number); compare with the decoded object."""
     from dali import command
@@ -81,6 +86,16 @@ def roundtrip(res, table, cls, build, canon, fields, dt=None, dmap=None, ctx=Non
     devtype = cls.devicetype if dt is None else dt
     # the context of a device/instance-scheme event (the instance type the map supplies) is part of the key
     table.put(n, (devtype, ctx), v, (cls.__module__ + "." + cls.__name__,) + tuple(canon))
+    # what was decoded just before must not matter: every other round trip is preceded by the decode of a frame that
+    # sets context on the bus (ENABLE DEVICE TYPE n, a DTR load, INITIALISE)
+    _PRIME[0] += 1
+    if _PRIME[0] % 2:
+        try:
+            from dali import frame as _F
+            pn, pv = PRIMERS[(_PRIME[0] // 2) % len(PRIMERS)]
+            command.from_frame(_F.ForwardFrame(pn, pv))
+        except Exception:
+            pass
     try:
         back = command.from_frame(f, devicetype=devtype, dev_inst_map=dmap)
     except Exception as e:
@@ -476,6 +491,16 @@ def run_reject(tier, seed, res):
                       lambda: cls(device_group=1, instance_number=1, **base))
         expect_reject(res, f"{nm}(short_address=<gear address>)", "wrong-address-kind",
                       lambda: cls(short_address=address.GearShort(1), **base))
+        # the short-address field takes a short address: other kinds of address / instance objects would rewrite the
+        # scheme bits and come back as some other event
+        for wn, wrong in (("DeviceGroup", address.DeviceGroup(5)), ("DeviceBroadcast", address.DeviceBroadcast()),
+                          ("DeviceBroadcastUnaddressed", address.DeviceBroadcastUnaddressed()),
+                          ("InstanceNumber", address.InstanceNumber(1)), ("InstanceGroup", address.InstanceGroup(2)),
+                          ("GearGroup", address.GearGroup(1)), ("GearBroadcast", address.GearBroadcast())):
+            expect_reject(res, f"{nm}(short_address=<{wn}>)", "wrong-address-kind",
+                          lambda: cls(short_address=wrong, **base))
+            expect_reject(res, f"{nm}(short_address=<{wn}>, instance_number=1)", "wrong-address-kind",
+                          lambda: cls(short_address=wrong, instance_number=1, **base))
     for bad in (-1, 1024, 1025, 65535):
         for kw in (dict(short_address=1), dict(instance_group=3), dict(short_address=1, instance_number=2)):
             expect_reject(res, f"LightEvent(data={bad}, {kw})", "illuminance-range", lambda: light.LightEvent(data=bad, **kw))
